@@ -10,6 +10,12 @@ import (
 	"github.com/unification-com/mainchain/x/stream/types"
 )
 
+// addSeconds returns t + secs whole seconds. It deliberately avoids time.Duration, whose
+// nanosecond int64 overflows for durations longer than ~292 years.
+func addSeconds(t time.Time, secs int64) time.Time {
+	return time.Unix(t.Unix()+secs, int64(t.Nanosecond())).UTC()
+}
+
 // GetTotalDeposits gets the total deposits - just a wrapper for getting the module account's balances from the bank
 func (k Keeper) GetTotalDeposits(ctx sdk.Context) sdk.Coins {
 	moduleAcc := k.GetStreamModuleAccount(ctx)
@@ -182,10 +188,10 @@ func (k Keeper) AddDeposit(ctx sdk.Context, receiverAddr, senderAddr sdk.AccAddr
 		}
 
 		// stream expired or new. Calculate from now
-		depositZeroTime = nowTime.Add(time.Second * time.Duration(durationExtension))
+		depositZeroTime = addSeconds(nowTime, durationExtension)
 	} else {
 		// stream not expired. Add to current deposit zero time
-		depositZeroTime = stream.DepositZeroTime.Add(time.Second * time.Duration(durationExtension))
+		depositZeroTime = addSeconds(stream.DepositZeroTime, durationExtension)
 	}
 
 	// Send topUpDeposit from user acc to module acc
@@ -255,7 +261,7 @@ func (k Keeper) SetNewFlowRate(ctx sdk.Context, receiverAddr, senderAddr sdk.Acc
 		// above. We're effectively creating a "new" stream, based on existing deposit value
 		// and the new flow rate
 		duration = types.CalculateDuration(stream.Deposit, newFlowRate)
-		depositZeroTime = nowTime.Add(time.Second * time.Duration(duration))
+		depositZeroTime = addSeconds(nowTime, duration)
 	}
 
 	// save new stream data
